@@ -37,7 +37,7 @@ Definition model_result (F : facts) (c : case) : result Z :=
 
 (** gas the body must at least / exactly have used when the call succeeded *)
 Definition body_gas_ok (F : facts) (c : case) : bool :=
-  match o_class c, selected (pc_of F (c_pc c)) (c_inp c), required_gas F (pc_of F (c_pc c)) (c_inp c), i_unpack (c_inp c) with
+  match o_class c, selected (pc_of F (c_pc c)) (c_inp c), required_gas F (pc_of F (c_pc c)) (cap4_of (c_kind c) (c_inp c)) (c_inp c), i_unpack (c_inp c) with
   | Ok, Some mf, GGas rq, Some args =>
       let g1 := c_gas c - rq in
       (* every store access costs at least ReadCostFlat = 1000 *)
